@@ -270,3 +270,59 @@ def check_option_merge(R, inst, run, paths, cli_t, builder_t, value_of, what):
         else:
             ok, why = False, "the CLI option is not examined"
     R.check(ok and seen == {"cli", "builder"}, inst, run, what, f"{what} does not hold: {why or 'cases seen ' + str(sorted(seen))}")
+
+
+def check_clone_faithful_table(F, R, prefix, inst):
+    """Every `Clone::clone` of an ADT under `prefix` (hand-written because of the unbounded `World` parameter, or derived)
+    returns, per variant of `self`, the same variant with every field cloned from the same field — on the impl's path
+    table.  A clone that maps a variant to another one changes what Tee's / Repeat's second consumer sees."""
+    from . import deep as D
+
+    def norm(t):
+        if isinstance(t, tuple) and t:
+            if t[0] in ("conv", "refto", "ref", "deref") and len(t) == 2:
+                return norm(t[1])
+            return tuple(norm(x) for x in t)
+        return t
+    bs = [b for b in F.crate_bodies() if (b.impl or {}).get("trait") == "std::clone::Clone" and b.name.endswith("::clone")
+          and (b.impl or {}).get("self_adt", "").startswith(prefix)]
+    n = 0
+    for b in bs:
+        adt = b.impl["self_adt"]
+        rows = D.Deep(F, b, max_paths=300).run()
+        info = F.adts.get((b.crate, adt)) or F.adts.get(("cucumber", adt))
+        nvar = len(info["variants"]) if info else None
+        short = adt.rsplit("::", 1)[-1]
+        bad = None
+        seen = set()
+        if not rows or any(p.cut for p in rows):
+            bad = "empty path table or a loop"
+        for p in rows if bad is None else []:
+            ret = norm(p.ret)
+            if ret == ("arg", 1):
+                seen.add("*")
+                continue
+            vs = [out for a, out in p.conds if a[0] == "discr" and norm(a[1]) == ("arg", 1)]
+            if not (isinstance(ret, tuple) and ret and ret[0] == "variant" and ret[1] == adt):
+                bad = f"a path returns {D.fmt(b, p.ret)[:60]}"
+                break
+            v = vs[0] if vs else ret[2]
+            if vs and len(vs) != 1:
+                bad = "self's variant is examined twice"
+                break
+            if ret[2] != v:
+                bad = f"a `{v}` is cloned as `{ret[2]}`"
+                break
+            src = ("as", ("arg", 1), v) if vs else ("arg", 1)
+            for j, f in enumerate(ret[3]):
+                if f != ("field", src, j):
+                    bad = f"field {j} of the cloned `{v}` is not the clone of field {j} of self"
+                    break
+            if bad:
+                break
+            seen.add(v)
+        if bad is None and "*" not in seen and nvar is not None and len(seen) != nvar:
+            bad = f"{len(seen)} of {nvar} variants are cloned"
+        n += 1
+        R.check(bad is None, f"{inst}/{short}", b, f"{short}::clone keeps variant and fields ({len(rows)} rows)", f"`{short}::clone` is not faithful: {bad}")
+    return n
